@@ -103,6 +103,8 @@ def run_c03(rep):
                          known_classes=known_classes("C03") | known_classes("C10") | known_classes("C08"), label="c03")
     # (the commands in the block of a `-> @join` choice run exactly once too: each block bumps its own counter — C10's oracle)
     # reads never consume anything the story holds (one-shot iterators, ranges, sets, deques kept in variables): real code only
+    # the commands of a passage are what the source says they are (a statement below a block is a command, not content)
+    compile_tie(rep, "c03-compile", dict(top_jumps=0.5, block_jumps=0.3, hooks=0.4, conds=0.8, loops=0.5, join=0.3))
     import fam_reads
     fam_reads.reads_invisible(rep, sizes(rep, 25, 400), "C03")
     fam_reads.once_sessions(rep, sizes(rep, 30, 500))
@@ -120,8 +122,13 @@ def run_c04(rep):
                          weights=dict(choose=50, bad=3, undo=22, redo=10, goto=2, read=4, save=1, load=1, fresh=1, rechoose=0.6),
                          oracle_names=["oracle_c04"], known_classes=known_classes("C04"), label="c04-alias", model=False)
     # probe: a long run of choices crossing the 50-deep bound, then unwinding it completely
-    probe = corr_play.run_fixed(":: Start\n~ n = 0\nHi\n+ [again] -> Loop\n\n:: Loop\n~ n = n + 1\n~ xs = [n]\nRound {n}\n+ [again] -> Loop\n",
-                                [{"op": "choose", "i": 0}] * 60 + [{"op": "undo"}] * 55 + [{"op": "redo"}] * 52 + [{"op": "undo"}] * 3,
+    # (every restore point shows something a bare re-rendering of its passage would not give: the text of a turn_end hook,
+    # of a jump chain, a statement inside a block)
+    CAP_STORY = (":: Start\n~ n = 0\n~ hl = 0\n@hook turn_end Tick\nHi\n+ [again] -> Loop\n\n:: Loop\n~ n = n + 1\n~ xs = [n]\nRound {n}\n"
+                 "@if n % 2 == 0:\n  ~ hl = hl + 1\n  even {hl}\n@endif\n+ [again] -> Loop\n+ [via] -> Via\n\n:: Via\nvia {n}\n@if True:\n  -> Loop\n@endif\n\n"
+                 ":: Tick\ntick {n} {hl}\n")
+    probe = corr_play.run_fixed(CAP_STORY,
+                                [{"op": "choose", "i": 0}] + [{"op": "choose", "i": 0}, {"op": "choose", "i": 1}] * 30 + [{"op": "undo"}] * 55 + [{"op": "redo"}] * 52 + [{"op": "undo"}] * 3,
                                 case_id="c04-cap-probe")
     probe["cycles"] = False
     for f in oracles.oracle_c04(probe):
@@ -339,7 +346,9 @@ def run_c06(rep):
            ":: Start\n~ w = Wallet(3)\nhi\n+ [go] -> Next\n\n:: Next\n~ w2 = Wallet(math.floor(2.5))\n"
            "~ name = roll.__name__\nok {w2.gold} {name} {w.gold}\n")
     # classes bound under another name, or reached through their module, are rebuilt as objects too
-    for imp, mk in (("from bardic.stdlib.economy import Wallet as Purse2", "Purse2(4)"), ("import bardic.stdlib.economy as eco", "eco.Wallet(4)")):
+    for imp, mk in (("from bardic.stdlib.economy import Wallet as Purse2", "Purse2(4)"), ("import bardic.stdlib.economy as eco", "eco.Wallet(4)"),
+                    ("import bardic.stdlib as lib", "lib.Wallet(4)"), ("import bardic.stdlib", "bardic.stdlib.Wallet(4)"),
+                    ("from bardic import stdlib as sl", "sl.Wallet(4)")):
         src2 = (f"{imp}\n:: Start\n~ w = {mk}\nhi\n+ [go] -> Mid\n\n:: Mid\nmid\n+ [go] -> Last\n\n:: Last\n"
                 "{w.gold} {w.can_afford(4)} {type(w).__name__}\n")
         try:
